@@ -1,7 +1,7 @@
 (* Property C09 — inserting or removing markup never alters the paragraph text around it.
    Statements only; each is closed by [exact] of a lemma proved in TreeProof*.v.  Model: Tree.v (event list + tree). *)
 From Coq Require Import List ZArith Bool. Import ListNotations.
-Require Import WS WSnfproof Tree TreeNF TreeProof TreeProof2 TreeProof3 TreeProof5.
+Require Import WS WSnfproof Tree TreeNF TreeProof TreeProof2 TreeProof3 TreeProof5 TreeProof9.
 
 (* ---- insertion: set_span / set_link by offset and length (offset >= 0: the repaired code raises on negative ones) *)
 Theorem C09_insert_preserves_offset : forall k a off len evs, plain_kind k = true -> (0 <= off)%Z ->
@@ -23,6 +23,11 @@ Theorem C09_insert_preserves_regex : forall k a spans evs, plain_kind k = true -
   readable_ev (wrap_re k a spans evs) = readable_ev evs.
 Proof. exact wrap_re_readable. Qed.
 Print Assumptions C09_insert_preserves_regex.
+
+Theorem C09_insert_link_regex_keeps_raw : forall a spans evs, all_spans_ok (texts evs) spans = true ->
+  raw (wrap_re KLink a spans evs) = raw evs.
+Proof. exact wrap_re_link_raw. Qed.
+Print Assumptions C09_insert_link_regex_keeps_raw.
 
 (* ---- Element._insert: bookmark, reference mark, note, annotation (position / before / after, any occurrence index) *)
 Theorem C09_insert_preserves_mark : forall elem w evs evs', silent elem -> insert_ elem w evs = Some evs' ->
